@@ -84,6 +84,12 @@ def handle (s : Sexp) : String :=
       let t : TileTarget := ⟨v, lo, hi, st, body, tile, oo, eo, oi, ei⟩
       answer (tileValidate t) (tileApply t)
     | _, _, _, _, _, _, _, _, _, _ => "bad-tile2d"
+  | .list [.atom "replaceiv", v, lo, hi, st, body] =>
+    match v.nat?, parseExpr lo, parseExpr hi, parseExpr st, stmtList body with
+    | some v, some lo, some hi, some st, some body =>
+      let t : ReplaceIVTarget := ⟨v, lo, hi, st, body⟩
+      answer (replaceIVValidate t) (replaceIVApply t)
+    | _, _, _, _, _ => "bad-replaceiv"
   | _ => "bad-op"
 
 def main : IO Unit := run handle
